@@ -1582,3 +1582,43 @@ pub fn lost_probe_other_space_native(_x: u8) -> u32 {
     assert!(conn.spaces[SpaceId::Data].sent_packets.get(5).is_some() && conn.path.mtud.in_flight_mtu_probe() == Some(5), "an MTU probe that is still in flight was declared lost by loss detection for another packet space");
     1
 }
+
+/// Native replay body for the E2 slice query `e2_handle_packet_tail_repeats_close` (C08): the application closes
+/// an established connection; the closing packet is sent (and, say, lost).  The peer, unaware, keeps sending.
+/// Every packet from the peer must make the closed connection send its CONNECTION_CLOSE again.
+pub fn close_repeated_native(_x: u8) -> u32 {
+    let mut conn = mk_migratable_server();
+    let now = crate::verif::mk_instant(51, 0).unwrap();
+    let home = addr(1, 4433);
+    deliver_short(&mut conn, now, home, 5, &[0x01]);
+    conn.spaces[SpaceId::Data].pending.new_tokens.clear();
+    conn.close(now, VarInt::from_u32(42), Bytes::from_static(b"bye"));
+    let mut buf = Vec::with_capacity(4096);
+    assert!(conn.poll_transmit(now, 1, &mut buf).is_some(), "the close is announced");
+    buf.clear();
+    assert!(conn.poll_transmit(now, 1, &mut buf).is_none(), "nothing more to send");
+    for pn in 6..9u8 {
+        deliver_short(&mut conn, now, home, pn, &[0x01]);
+        buf.clear();
+        assert!(conn.poll_transmit(now, 1, &mut buf).is_some(), "a closed connection did not repeat its CONNECTION_CLOSE when the peer kept sending (packet {})", pn);
+    }
+    1
+}
+
+/// Native replay body for the E2 query `e2_discard_space_iteration` (C12): a Handshake space holding one
+/// ack-eliciting packet and one padded ACK-only packet (not ack-eliciting, but counted in flight because of its
+/// padding) is abandoned.  Nothing of it may stay in bytes-in-flight.
+pub fn discard_space_native(_x: u8) -> u32 {
+    let mut conn = mk_conn(false, false);
+    let now = crate::verif::mk_instant(51, 0).unwrap();
+    conn.spaces[SpaceId::Handshake].crypto = Some(nullcrypto::keys());
+    let mk = |size: u16, eliciting: bool| SentPacket { path_generation: 0, time_sent: now, size, ack_eliciting: eliciting, largest_acked: None, retransmits: ThinRetransmits::default(), stream_frames: Default::default() };
+    for (pn, pkt) in [(0u64, mk(300, true)), (1, mk(1149, false))] {
+        paths::in_flight_insert(&mut conn.path, &pkt);
+        conn.spaces[SpaceId::Handshake].sent(pn, pkt);
+    }
+    assert!(paths::in_flight_bytes(&conn.path) == 1449);
+    conn.discard_space(now, SpaceId::Handshake);
+    assert!(paths::in_flight_bytes(&conn.path) == 0, "{} bytes of an abandoned packet space still count as in flight", paths::in_flight_bytes(&conn.path));
+    1
+}
